@@ -324,7 +324,15 @@ func (e *Exec) externalInvokeEnv(fr *Frame, st State, cc *ssa.CallCommon, recv V
 	case "LocalAddr":
 		r := e.freshVal(cc.Signature().Results().At(0).Type(), "localaddr")
 		return []Outcome{{st: st, ret: r}}, true
-	case "Error", "String", "Network":
+	case "Network":
+		if cc.Method.Type().(*types.Signature).Params().Len() == 0 {
+			c := e.c
+			v := e.addrNetwork(recv)
+			st = st.assume(c.And(c.Ule(v[1], c.Const(64, 1<<20)), c.Or(c.Eq(v[1], c.Const(64, 0)), c.And(c.Ule(c.Const(64, 1), v[0]), c.Ule(c.Add(v[0], v[1]), e.brk0)))))
+			e.assumed["net.Addr.Network() is a function of the address value and returns a pre-existing string"] = true
+			return []Outcome{{st: st, ret: v}}, true
+		}
+	case "Error", "String":
 		if cc.Method.Type().(*types.Signature).Params().Len() == 0 {
 			s, v := e.freshString(st, "msg")
 			e.assumed["error.Error()/Stringer.String() of foreign values return some string"] = true
@@ -788,4 +796,10 @@ func (e *Exec) netWrite(st State, b Val) State {
 	st = st.setGhost("lastwrite.len", b[1])
 	e.assumed["assumed contract: one Write/WriteToUDP call hands the slice to the network as one unit"] = true
 	return st
+}
+
+// addrNetwork: the string net.Addr.Network() returns, as a function of the address value.
+func (e *Exec) addrNetwork(a Val) Val {
+	c := e.c
+	return Val{c.Apply("addr.network.ptr", BV(64), a[0], a[1]), c.Apply("addr.network.len", BV(64), a[0], a[1])}
 }
